@@ -289,6 +289,19 @@ def tool_triples(chk, tier):
         for i in r.sample(range(n), r.choice([0, 0, 1])): ll[i] = 'M%d' % i
         nl = '\n' if r.random() < 0.6 else ''
         out.append(('\n'.join(bl) + nl, '\n'.join(ll) + nl, '\n'.join(rl) + nl, 'clash'))
+    # carriage returns that are not part of a CRLF pair (inside a line, doubled, or as the last character before LF):
+    # git merge-file and diff3 split on LF only and hand them back verbatim; every line is LF-terminated here
+    crpool = ['p\rq', 'k = 1\r', "s = 'a\rb'", 'x', 'y', 'z = 2', 'w\r\rv', 'n', 'm = 3']
+    for i in range(150 if tier == 'quick' else 1500):
+        bl = [r.choice(crpool) for _ in range(r.choice([1, 2, 3, 4, 6]))]
+        ll = list(bl); rl = list(bl)
+        for side, tag in ((ll, 'L'), (rl, 'R')):
+            for _ in range(r.choice([0, 1, 1, 2])):
+                k = r.random(); fresh = r.choice(['%s%d\r%s' % (tag, i, tag.lower()), '%s%d = 0' % (tag, i), "%s%d = 'a\rb'" % (tag, i)])
+                if k < 0.6 or not side: side.insert(r.randint(0, len(side)), fresh)
+                elif k < 0.8: side[r.randrange(len(side))] = fresh
+                else: del side[r.randrange(len(side))]
+        out.append(('\n'.join(bl) + '\n', ''.join(x + '\n' for x in ll), ''.join(x + '\n' for x in rl), 'cr'))
     return out
 
 def counter_cases(chk, tier):
